@@ -178,6 +178,8 @@ def make_phase(name, beh, ctx):
         time.sleep(0.0005)
     if r == 'raise':
       raise PhaseBoom('boom in %s' % name)
+    if r == 'sysexit':
+      raise SystemExit(3)       # a BaseException that is not an Exception: the phase thread dies without a result
     if r == 'raise_f':
       raise FailureExc('failure exception in %s' % name)
     return {'ok': None, 'continue': h.PhaseResult.CONTINUE, 'fail': h.PhaseResult.FAIL_AND_CONTINUE,
